@@ -64,6 +64,18 @@ def gen_inputs(ctx):
                       {"from": 0, "i": idx4(1)}, {"from": 0, "i": idx4(0)}]
             root = pub_parent(rng, k, depth=rng.choice([0, 1, 3, 5]))
             out.append(("CkdSeq", {"root": root, "steps": steps}, ("pubseq", order[0] > order[1], root["depth"] == 0)))
+    # bulk generation and one-shot iterables on the PUBLIC side (a hardened index anywhere in the request refuses it)
+    b5 = lambda v: B(v.to_bytes(5, "big"))
+    for st, en, c in ((0, 3, "low"), (2 ** 31 - 2, 2 ** 31 + 1, "straddle"), (2 ** 31 - 3, 2 ** 31, "up-to-boundary"), (2 ** 31, 2 ** 31 + 1, "hardened"), (4, 4, "empty")):
+        k, kc = rng.choice(sc)
+        out.append(("GenChildren", {"par": pub_parent(rng, k, depth=rng.choice([0, 2])), "start": b5(st), "end": b5(en)}, ("pub-genchildren", c)))
+    for _ in range(4 if q else 40):
+        k, kc = rng.choice(sc)
+        path = [rng.randrange(2 ** 31) for _ in range(rng.randrange(1, 5))]
+        if rng.random() < 0.25:
+            path[rng.randrange(len(path))] = rng.randrange(2 ** 31, 2 ** 32)
+        out.append(("DerivePath", {"root": pub_parent(rng, k, depth=rng.choice([0, 1, 4])), "path": [idx4(x) for x in path], "form": "iterator"},
+                    ("pub-path-as-iterator", len(path), any(x >= 2 ** 31 for x in path))))
     # only the public child is kept by the caller (the parent object is gone before anything is printed)
     import copy
     base = [x for x in out if x[0] == "CkdPub" and "prf" not in x[1] and x[2][0] == "pub"]
